@@ -616,3 +616,26 @@ def deep_calls(m, fi, pred, depth=1):
 def in_lock_deep(call, owner, site, attr):
     """the call runs inside a lock region named *.attr, in its own function or around the helper call site"""
     return in_lock(call, attr) or (site is not call and in_lock(site, attr))
+
+
+def exit_calls(m, fi, cfg):
+    """calls in fi that end the process: sys.exit(...) itself, or a helper method of the same class that never returns
+    and contains the sys.exit (the error report was extracted into a helper)"""
+    res = []
+    helpers = {id(site): h for site, h in helper_methods_called(m, fi)}
+    for c in calls_in(fi.node):
+        if call_name(c) == 'sys.exit':
+            res.append(c)
+        elif cfg._helper_never_returns(c) and id(c) in helpers and any(call_name(x) == 'sys.exit' for x in calls_in(helpers[id(c)].node)):
+            res.append(c)
+    return res
+
+
+def deep_nodes(m, fi):
+    """nodes of fi's own body and, one level deep, of the helper methods of the same class it calls"""
+    yield from body_walk(fi.node)
+    seen = set()
+    for site, helper in helper_methods_called(m, fi):
+        if id(helper) not in seen:
+            seen.add(id(helper))
+            yield from body_walk(helper.node)
